@@ -445,5 +445,240 @@ theorem move_good {t t' : Tree} {win : Nat} {r : Rect} (hg : Good15 t) (h0 : win
             · rw [h]; exact hg.later
             · exact fun _ => b }
 
+/-! ### `tickit_window_close` -/
+
+/-- The store after REMOVE, before the expose and the `closed` mark. -/
+def removedStore (t : Tree) (win p : Nat) (w pw : Win) (i : Nat) : Option Win :=
+  if i = win then some { w with parent := none }
+  else if i = p then some (closedParent pw win)
+  else t.wins[i]?
+
+/-- `tickit_window_close` of a window with a parent, in pieces: purge, REMOVE, the expose in the parent, the mark. -/
+theorem close_pieces {t t' : Tree} {fuel win p : Nat} {w : Win} (hh : WinTree.close t fuel win = .ok t') (hw : Live t win w)
+    (hp : w.parent = some p) (hpne : p ≠ win) :
+    ∃ pw tb tc, Live t p pw ∧ win ∈ pw.children ∧ (∀ i : Nat, tb.wins[i]? = removedStore t win p w pw i) ∧
+      tb.wins.size = t.wins.size ∧ tb.root.damage = t.root.damage ∧ tb.root.needsExpose = t.root.needsExpose ∧
+      tb.root.needsLater = t.root.needsLater ∧ tb.root.needsRestore = t.root.needsRestore ∧
+      (t.root.changes = [] → tb.root.changes = []) ∧
+      (if w.isVisible = true then expose tb fuel p (some w.rect) else pure tb) = .ok tc ∧
+      t'.root = tc.root ∧ ∀ i : Nat, t'.wins[i]? = closedStore t win p w pw i := by
+  unfold WinTree.close at hh
+  simp only [bind_ok] at hh
+  obtain ⟨w0, hg, hh⟩ := hh
+  have := live_unique (get_ok.mp hg) hw; subst this
+  simp only [hp, bind_ok] at hh
+  obtain ⟨t1, hpurge, t3, hrem, hmod⟩ := hh
+  obtain ⟨hw1, hd1, he1, hl1, hq1⟩ := purge_spec t fuel win t1 hpurge
+  have hr1 : t1.root.needsRestore = t.root.needsRestore := by
+    unfold purgeHierarchyChanges at hpurge
+    simp only [bind_ok] at hpurge
+    obtain ⟨_, _, _, _, hpurge⟩ := hpurge
+    split at hpurge
+    · simp only [pure_ok] at hpurge; subst hpurge; rfl
+    · simp only [bind_ok, pure_ok] at hpurge
+      obtain ⟨_, _, hpurge⟩ := hpurge
+      subst hpurge; rfl
+  unfold doHierarchyChange at hrem
+  simp only [bind_ok, pure_ok] at hrem
+  obtain ⟨pw, hgp, w1, hgw1, cs, hcs, w2, hgw2, t2, ht2, hrem⟩ := hrem
+  have hpw1 := get_ok.mp hgp
+  have hpw : Live t p pw := ⟨by rw [← hw1]; exact hpw1.1, hpw1.2⟩
+  have hw1' : w1 = w0 := by
+    have := (get_ok.mp hgw1).1; rw [hw1, hw.1] at this; cases this; rfl
+  subst hw1'
+  obtain ⟨hin, _⟩ := listRemove_mem hcs
+  have hcs' : cs = pw.children.erase win := by
+    unfold listRemove at hcs; split at hcs
+    · cases hcs; rfl
+    · cases hcs
+  have hw2 : w2 = w1 := by
+    have := (get_ok.mp hgw2).1
+    rw [set_lookup hpw1.1] at this
+    simp only [hpne, if_false] at this
+    rw [hw1, hw.1] at this; cases this; rfl
+  subst hw2
+  have hl2 : ∀ i : Nat, t2.wins[i]? = removedStore t win p w2 pw i := by
+    intro i
+    rw [← ht2]
+    have hwin2 : (WinTree.set t1 p { pw with children := cs, focusedChild := if pw.focusedChild = some win then none else pw.focusedChild }).wins[win]? = some w2 := by
+      rw [set_lookup hpw1.1]; simp only [hpne, if_false]; rw [hw1]; exact hw.1
+    rw [set_lookup hwin2]
+    unfold removedStore
+    by_cases hi : i = win
+    · subst hi; simp
+    · have h1 : ¬ win = i := fun h => hi h.symm
+      simp only [h1, hi, if_false]
+      rw [set_lookup hpw1.1]
+      by_cases hip : i = p
+      · subst hip; simp [closedParent, hcs']
+      · have h2 : ¬ p = i := fun h => hip h.symm
+        simp only [h2, hip, if_false]; rw [hw1]
+  have hr2 : t2.root = t1.root := by rw [← ht2]; rfl
+  unfold WinTree.modify at hmod
+  simp only [bind_ok, pure_ok] at hmod
+  obtain ⟨w4, hg4, hmod⟩ := hmod
+  have hwins3 : t3.wins = t2.wins := by
+    split at hrem
+    · obtain ⟨a, _, _⟩ := expose_frame _ _ _ _ _ hrem; exact a
+    · simp only [pure_ok] at hrem; subst hrem; rfl
+  have hw4 : w4 = { w2 with parent := none } := by
+    have := (get_ok.mp hg4).1
+    rw [hwins3, hl2 win] at this
+    unfold removedStore at this
+    simp at this; exact this.symm
+  subst hw4
+  refine ⟨pw, t2, t3, hpw, hin, hl2, by rw [← ht2]; simp [WinTree.set, hw1], by rw [hr2]; exact hd1, by rw [hr2]; exact he1,
+    by rw [hr2]; exact hl1, by rw [hr2]; exact hr1, fun hq => by rw [hr2]; exact hq1 hq, hrem, ?_, ?_⟩
+  · rw [← hmod]; rfl
+  · intro i
+    rw [← hmod]
+    have hl3 : t3.wins[win]? = some { w2 with parent := none } := by
+      rw [hwins3, hl2 win]; unfold removedStore; simp
+    rw [set_lookup hl3]
+    unfold closedStore
+    by_cases hi : i = win
+    · subst hi; simp
+    · have h1 : ¬ win = i := fun h => hi h.symm
+      simp only [h1, hi, if_false]
+      rw [hwins3, hl2 i]
+      unfold removedStore
+      simp only [hi, if_false]
+
+/-- The structural invariants after REMOVE (with or without the `closed` mark). -/
+theorem struct_removed {t T : Tree} {win p : Nat} {w w' pw : Win}
+    (hwfp : WFp t) (hrw : RootWin t) (hor : OnlyRoot t) (hnd : ChildrenNodup t) (hns : NoSelfParent t)
+    (hpos : RootsPositive t)
+    (hw : t.wins[win]? = some w) (hp : w.parent = some p) (hpw : t.wins[p]? = some pw) (hpne : p ≠ win) (h0 : win ≠ 0)
+    (hw' : w'.children = w.children ∧ w'.isRoot = w.isRoot ∧ w'.rect = w.rect ∧ w'.freed = w.freed ∧ w'.parent = none)
+    (hl : ∀ i : Nat, T.wins[i]? = if i = win then some w' else if i = p then some (closedParent pw win) else t.wins[i]?) :
+    WFp T ∧ RootWin T ∧ OnlyRoot T ∧ ChildrenNodup T ∧ NoSelfParent T ∧ RootsPositive T := by
+  have hlw : T.wins[win]? = some w' := by rw [hl win]; simp
+  have hlp : T.wins[p]? = some (closedParent pw win) := by rw [hl p]; simp [hpne]
+  have hlo : ∀ i : Nat, i ≠ win → i ≠ p → T.wins[i]? = t.wins[i]? := by
+    intro i h1 h2; rw [hl i]; simp [h1, h2]
+  have hcp : (closedParent pw win).isRoot = pw.isRoot ∧ (closedParent pw win).parent = pw.parent ∧
+      (closedParent pw win).rect = pw.rect ∧ (closedParent pw win).freed = pw.freed ∧
+      (closedParent pw win).children = pw.children.erase win := ⟨rfl, rfl, rfl, rfl, rfl⟩
+  -- every window of `T` against the window of `t`
+  have hrel : ∀ (x : Nat) (wb : Win), T.wins[x]? = some wb → ∃ w0, t.wins[x]? = some w0 ∧ wb.isRoot = w0.isRoot ∧
+      wb.rect = w0.rect ∧ wb.freed = w0.freed ∧
+      (x ≠ win → wb.parent = w0.parent) ∧ (x = win → wb.parent = none) ∧
+      (x ≠ p → wb.children = w0.children) ∧ (x = p → wb.children = w0.children.erase win) := by
+    intro x wb hwb
+    by_cases hxi : x = win
+    · subst hxi
+      rw [hlw] at hwb; cases hwb
+      exact ⟨w, hw, hw'.2.1, hw'.2.2.1, hw'.2.2.2.1, fun hx => absurd rfl hx, fun _ => hw'.2.2.2.2, fun _ => hw'.1,
+        fun hx => absurd hx.symm hpne⟩
+    · by_cases hxp : x = p
+      · subst hxp
+        rw [hlp] at hwb; cases hwb
+        exact ⟨pw, hpw, hcp.1, hcp.2.2.1, hcp.2.2.2.1, fun _ => hcp.2.1, fun hx => absurd hx hxi,
+          fun hx => absurd rfl hx, fun _ => hcp.2.2.2.2⟩
+      · rw [hlo x hxi hxp] at hwb
+        exact ⟨wb, hwb, rfl, rfl, rfl, fun _ => rfl, fun hx => absurd hx hxi, fun _ => rfl, fun hx => absurd hx hxp⟩
+  have hrel' : ∀ (x : Nat) (w0 : Win), t.wins[x]? = some w0 → ∃ wb, T.wins[x]? = some wb := by
+    intro x w0 hw0
+    by_cases hxi : x = win
+    · exact ⟨_, by rw [hxi]; exact hlw⟩
+    · by_cases hxp : x = p
+      · exact ⟨_, by rw [hxp]; exact hlp⟩
+      · exact ⟨w0, by rw [hlo x hxi hxp]; exact hw0⟩
+  have honly : ∀ (x : Nat) (w0 : Win), x ≠ p → t.wins[x]? = some w0 → win ∉ w0.children := by
+    intro x w0 hx hw0 hmem
+    obtain ⟨cw, hcw, hcpar, _⟩ := hwfp.child x w0 hw0 win hmem
+    rw [hw] at hcw; cases hcw
+    rw [hp] at hcpar
+    exact hx (Option.some.inj hcpar).symm
+  have hnotin : win ∉ pw.children.erase win := fun hmem => (List.Nodup.not_mem_erase (hnd p pw hpw)) hmem
+  refine ⟨⟨?_⟩, ?_, ?_, ?_, ?_, ?_⟩
+  · intro cur wb hwb ch hch
+    obtain ⟨w0, hw0, _, _, _, _, _, hc1, hc2⟩ := hrel cur wb hwb
+    have hch' : ch ∈ w0.children ∧ ch ≠ win := by
+      by_cases hcp' : cur = p
+      · rw [hc2 hcp'] at hch
+        subst hcp'
+        rw [hpw] at hw0; cases hw0
+        exact ⟨List.mem_of_mem_erase hch, fun hx => hnotin (by rw [hx] at hch; exact hch)⟩
+      · rw [hc1 hcp'] at hch
+        exact ⟨hch, fun hx => honly cur w0 hcp' hw0 (by rw [hx] at hch; exact hch)⟩
+    obtain ⟨cw, hcw, hcpar, hcr⟩ := hwfp.child cur w0 hw0 ch hch'.1
+    obtain ⟨cwb, hcwb⟩ := hrel' ch cw hcw
+    obtain ⟨cw2, hcw2, hr2, _, _, hp2, _, _, _⟩ := hrel ch cwb hcwb
+    rw [hcw] at hcw2; cases hcw2
+    exact ⟨cwb, hcwb, by rw [hp2 hch'.2]; exact hcpar, by rw [hr2]; exact hcr⟩
+  · obtain ⟨r, hr, hf, hroot, hpar, htop, hleft⟩ := hrw.ex
+    obtain ⟨rb, hrb⟩ := hrel' 0 r hr
+    obtain ⟨r2, hr2, e1, e2, e3, e4, _, _, _⟩ := hrel 0 rb hrb
+    rw [hr] at hr2; cases hr2
+    exact ⟨⟨rb, hrb, by rw [e3]; exact hf, by rw [e1]; exact hroot, by rw [e4 (fun h => h0 h.symm)]; exact hpar,
+      by rw [e2]; exact htop, by rw [e2]; exact hleft⟩⟩
+  · intro x wb hwb hr
+    obtain ⟨w0, hw0, hr1, _⟩ := hrel x wb hwb
+    exact hor x w0 hw0 (by rw [← hr1]; exact hr)
+  · intro cur wb hwb
+    obtain ⟨w0, hw0, _, _, _, _, _, hc1, hc2⟩ := hrel cur wb hwb
+    by_cases hcp' : cur = p
+    · rw [hc2 hcp']; exact (hnd cur w0 hw0).erase win
+    · rw [hc1 hcp']; exact hnd cur w0 hw0
+  · intro x wb hwb
+    obtain ⟨w0, hw0, _, _, _, hp1, hp2, _, _⟩ := hrel x wb hwb
+    by_cases hxi : x = win
+    · rw [hp2 hxi]; exact fun hx => by cases hx
+    · rw [hp1 hxi]; exact hns x w0 hw0
+  · intro x wb hwb hr
+    obtain ⟨w0, hw0, hr1, hr2, _⟩ := hrel x wb hwb
+    rw [hr2]; exact hpos x w0 hw0 (by rw [← hr1]; exact hr)
+
+theorem close_good {fx : Fixes} {t t' : Tree} {win : Nat} (hg : Good15 t) (hh : closeWin fx t win = .ok t') :
+    Good15 t' := by
+  unfold closeWin at hh
+  simp only [bind_ok, pure_ok] at hh
+  obtain ⟨w, hgw, t'', h2, hh⟩ := hh
+  have hw := get_ok.mp hgw
+  have hwf'' := close_wf hg.wf hg.nodup h2
+  have hne : ∀ p, w.parent = some p → p ≠ win := fun p hp hc => by
+    have := (wf_parent hg.wf hw hp).1
+    exact absurd (hc ▸ this) (Nat.lt_irrefl _)
+  have hg'' : Good15 t'' := by
+    cases hp : w.parent with
+    | none =>
+      obtain ⟨_, hcase⟩ := close_struct h2 hw hne
+      rcases hcase with ⟨_, hwins, hroot⟩ | ⟨p, _, hp', _⟩
+      · refine good15_rootStep hg hwf'' (fun x => ?_) (.inl hroot)
+        rw [hwins]; exact cn_set (w' := { w with isClosed := true }) hw.1 rfl x
+      · rw [hp] at hp'; cases hp'
+    | some p =>
+      have hplt := (wf_parent hg.wf hw hp).1
+      have h0 : win ≠ 0 := fun h => by subst h; omega
+      obtain ⟨pw, tb, tc, hpw, hin, hlb, hszb, hdb, heb, hlatb, hrb, _, hexp, hroot', hl'⟩ :=
+        close_pieces h2 hw hp (hne p hp)
+      obtain ⟨b1, b2, b3, b4, b5, b6⟩ := struct_removed (T := tb) (w' := { w with parent := none })
+        hg.wfp hg.rootWin hg.onlyRoot hg.nodup hg.noSelf hg.pos hw.1 hp hpw.1 (hne p hp) h0
+        ⟨rfl, rfl, rfl, rfl, rfl⟩ (fun i => by rw [hlb i]; rfl)
+      obtain ⟨c1, c2, c3, c4, c5, c6⟩ := struct_removed (T := t'') (w' := { w with parent := none, isClosed := true })
+        hg.wfp hg.rootWin hg.onlyRoot hg.nodup hg.noSelf hg.pos hw.1 hp hpw.1 (hne p hp) h0
+        ⟨rfl, rfl, rfl, rfl, rfl⟩ (fun i => by rw [hl' i]; rfl)
+      have hneb : ∀ x ∈ tb.root.damage, x.Nonempty := by rw [hdb]; exact hg.nonempty
+      have hroots : (∀ x ∈ tc.root.damage, x.Nonempty) ∧
+          (tc.root.damage ≠ [] → tc.root.needsExpose = true) ∧
+          ((tc.root.needsExpose = true ∨ tc.root.needsRestore = true) → tc.root.needsLater = true) := by
+        have hsame : (∀ x ∈ tb.root.damage, x.Nonempty) ∧ (tb.root.damage ≠ [] → tb.root.needsExpose = true) ∧
+            ((tb.root.needsExpose = true ∨ tb.root.needsRestore = true) → tb.root.needsLater = true) :=
+          ⟨hneb, by rw [hdb, heb]; exact hg.flagged, by rw [heb, hrb, hlatb]; exact hg.later⟩
+        split at hexp
+        · obtain ⟨_, hne', _, hfl, _⟩ := expose_spec _ tb p _ tc hexp hneb b6
+          rcases hfl with h | ⟨a, b, _⟩
+          · rw [h]; exact hsame
+          · exact ⟨hne', fun _ => a, fun _ => b⟩
+        · simp only [pure_ok] at hexp; subst hexp; exact hsame
+      exact { wf := hwf'', wfp := c1, rootWin := c2, onlyRoot := c3, nodup := c4, noSelf := c5, pos := c6
+              nonempty := by rw [hroot']; exact hroots.1
+              flagged := by rw [hroot']; exact hroots.2.1
+              later := by rw [hroot']; exact hroots.2.2 }
+  subst hh
+  refine good15_rootStep hg'' ?_ (fun x => by rw [chainRestoreAfter_wins]) (chainRestoreAfter_rootStep _ _ _ _)
+  rw [wfB_wins (chainRestoreAfter_wins _ _ _ _)]; exact hwf''
+
 end WinFocus
 end Tickit
